@@ -394,9 +394,14 @@ def main(tier, seed):
                [(g, 3, ["slim", 0]) for g in (((1,), (0,)),)] + \
                [(g, 1, [0, 1]) for g in families()]
     else:
-        plan = [(g, 3, [0, 1]) for g in g2] + \
-               [(g, 2, [0, 1]) for g in g3] + \
-               [(g, 3, [0]) for g in g3[::4]] + \
+        # (sized from measured cost, about 1 ms per step: the full
+        # alphabet at depth 2, the slim one at depth 3)
+        noloop = set(all_graphs(3, self_loops=False))
+        plan = [(g, 2, [0, 1]) for g in g2] + \
+               [(g, 3, ["slim", 0, 1]) for g in g2] + \
+               [(g, 2, [0, 1]) for g in g3 if g in noloop] + \
+               [(g, 2, ["slim", 0, 1]) for g in g3 if g not in noloop] + \
+               [(g, 3, ["slim", 0]) for g in g3[::4]] + \
                [(g, 2, [0, 1]) for g in families()]
     # split the big plans by first command so that the pool stays busy
     items = []
